@@ -197,11 +197,13 @@ package verifspec
 //@ property C19
 //@   requires fc != nil && fc.pkgCtx != nil && fc.pkgCtx.Info != nil && fc.pkgCtx.Info.Info != nil && !isnil(fc.pkgCtx.Info.Info.Types)
 //@   assigns fc.pkgCtx.Info.Info.Types
-//@   ensures result == e
+//@   ensures result == e && !isnil(fc.pkgCtx.Info.Info.Types)
 //@ func compiler.funcContext.newIdentFor
 //@ property C19
 //@   requires fc != nil && fc.pkgCtx != nil && fc.pkgCtx.Info != nil && fc.pkgCtx.Info.Info != nil && !isnil(fc.pkgCtx.Info.Info.Types) && !isnil(fc.pkgCtx.Info.Info.Uses)
+//@   assigns fc.pkgCtx.Info.Info.Types, fc.pkgCtx.Info.Info.Uses, heap(Ident.NamePos)
 //@   ensures result != nil && result.NamePos == objPos(key(obj))
+//@   ensures !isnil(fc.pkgCtx.Info.Info.Types) && !isnil(fc.pkgCtx.Info.Info.Uses)
 
 // ---- Filter.WriteJS: plain JavaScript (prelude, .inc.js) goes to the output either unchanged (no minification, no
 // mapping) or exactly as esbuild returned it -- nothing is trimmed or appended (a final newline separates it from what
